@@ -877,10 +877,19 @@ func (g *G) assignStmt() {
 			if v.MinLen > 0 && t.Elem.numeric() && rx.Chance(g.rt, "sideindex", 1, 3) {
 				// the index expression has a side effect: it is evaluated once per statement
 				g.meta.feat("sideindex")
+				// the container may be the result of a call as well, and the index a conversion of a call
+				target := v.Name
+				if t.Elem.K == "int" && rapid.Bool().Draw(g.rt, "sidecontainer") {
+					target = "pickInts(" + v.Name + ")"
+				}
+				index := fmt.Sprintf("idx(tick(), len(%s))", v.Name)
+				if rx.Chance(g.rt, "sideconv", 1, 3) {
+					index = "int(tzero())"
+				}
 				if rapid.Bool().Draw(g.rt, "sideincdec") {
-					g.line("%s[idx(tick(), len(%s))]%s", v.Name, v.Name, rx.Pick(g.rt, "sideop", "++", "--"))
+					g.line("%s[%s]%s", target, index, rx.Pick(g.rt, "sideop", "++", "--"))
 				} else {
-					g.line("%s[idx(tick(), len(%s))] %s %s", v.Name, v.Name, rx.Pick(g.rt, "sideopassign", "+=", "-=", "*="), g.operand(t.Elem, 1))
+					g.line("%s[%s] %s %s", target, index, rx.Pick(g.rt, "sideopassign", "+=", "-=", "*="), g.operand(t.Elem, 1))
 				}
 				g.line("fmt.Println(\"ticks\", ticks)")
 				break
@@ -967,7 +976,9 @@ func (g *G) assignStmt() {
 				g.meta.feat("sideindex")
 				kf := "tkey()"
 				if t.Key == "int" {
-					kf = "ikey()"
+					kf = rx.Pick(g.rt, "ikeyform", "ikey()", "int(ikey())", "int(fkey())")
+				} else if rapid.Bool().Draw(g.rt, "skeyconv") {
+					kf = "string(tkey())"
 				}
 				if rapid.Bool().Draw(g.rt, "sideincdec") {
 					g.line("%s[%s]++", v.Name, kf)
@@ -1627,7 +1638,7 @@ func Program(rt *rapid.T, p Profile) (*oracle.Program, *Meta) {
 		top.WriteString("\nfunc note(s string, v int) int {\n\tinitLog += s + \";\"\n\treturn v + len(initLog)\n}\n")
 	}
 	top.WriteString("\n")
-	top.WriteString("var ticks int\n\nfunc tick() int {\n\tticks++\n\treturn ticks\n}\n\nfunc tkey() string {\n\tticks++\n\treturn \"k1\"\n}\n\nfunc ikey() int {\n\tticks++\n\treturn 1\n}\n\n")
+	top.WriteString("var ticks int\n\nfunc tick() int {\n\tticks++\n\treturn ticks\n}\n\nfunc tkey() string {\n\tticks++\n\treturn \"k1\"\n}\n\nfunc ikey() int {\n\tticks++\n\treturn 1\n}\n\nfunc fkey() float64 {\n\tticks++\n\treturn 1.5\n}\n\nfunc tzero() int {\n\tticks++\n\treturn 0\n}\n\nfunc pickInts(s []int) []int {\n\tticks++\n\treturn s\n}\n\nfunc pickMap(m map[int]int) map[int]int {\n\tticks++\n\treturn m\n}\n\n")
 	top.WriteString("func idx(i int, n int) int {\n\tif n <= 0 {\n\t\treturn 0\n\t}\n\ti = i % n\n\tif i < 0 {\n\t\ti += n\n\t}\n\treturn i\n}\n\n")
 	// functions of increasing level
 	nf := rx.Range(rt, "nfuncs", 0, 4)
@@ -1673,6 +1684,18 @@ func Program(rt *rapid.T, p Profile) (*oracle.Program, *Meta) {
 	g.line("fmt.Println(\"start\", CA, CB, CC, limit)")
 	if pairs {
 		g.line("fmt.Println(\"pairs\", PA, PB, PC, PD, PE, PF, PG, PH, PI, PJ, PK, PL)")
+	}
+	if rapid.Bool().Draw(g.rt, "sideblock") {
+		// op-assignments whose container and index (or key) are both calls, plain and under a conversion: each
+		// operand is evaluated once, left to right
+		g.meta.feat("sideblock")
+		g.line("sd := []int{5, 6, 7}")
+		g.line("pickInts(sd)[idx(tick(), len(sd))] += 10")
+		g.line("pickInts(sd)[int(tzero())]++")
+		g.line("sm := map[int]int{1: 1}")
+		g.line("pickMap(sm)[int(ikey())] += 5")
+		g.line("pickMap(sm)[ikey()+1]++")
+		g.line("fmt.Println(\"side\", ticks, sd, len(sm), sm[1], sm[2])")
 	}
 	if noteLog {
 		g.line("fmt.Println(\"notes\", initLog)")
